@@ -145,6 +145,11 @@ type scanModel struct {
 	// observations
 	multiRegion, fragmented, heartbeats, boundEqBoundary, earlyNoMore bool
 	emptyFirst           int
+	// cancelAfter > 0: the scan's context is cancelled (cancelFn) while request number cancelAfter is
+	// being answered - the response still reaches the client; emitted counts the cells sent per row
+	cancelAfter int
+	cancelFn    func()
+	emitted     map[string]int
 	endedAt              time.Time
 	closeReqs, renewReqs                                              int
 }
@@ -274,7 +279,9 @@ func (m *scanModel) SendRPC(rpc hrpc.Call) (proto.Message, error) {
 			m.renewReqs++
 			return &pb.ScanResponse{ScannerId: proto.Uint64(sc.id), MoreResultsInRegion: proto.Bool(true), MoreResults: proto.Bool(true)}, nil
 		}
-		return m.respond(sc, req), nil
+		resp := m.respond(sc, req)
+		m.maybeCancel()
+		return resp, nil
 	}
 	// open
 	if req.GetRenew() {
@@ -339,7 +346,14 @@ func (m *scanModel) SendRPC(rpc hrpc.Call) (proto.Message, error) {
 		sc.closed = true
 		sc.releasedAt = time.Now()
 	}
+	m.maybeCancel()
 	return resp, nil
+}
+
+func (m *scanModel) maybeCancel() {
+	if m.cancelAfter > 0 && m.requests == m.cancelAfter && m.cancelFn != nil {
+		m.cancelFn()
+	}
 }
 
 // respond produces the next response of a region scanner from the tape.
@@ -369,6 +383,12 @@ func (m *scanModel) respond(sc *srvScanner, req *pb.ScanRequest) *pb.ScanRespons
 	}
 	emit := func(cells []*pb.Cell, partial bool) {
 		resp.Results = append(resp.Results, &pb.Result{Cell: cells, Partial: proto.Bool(partial)})
+		if len(cells) > 0 {
+			if m.emitted == nil {
+				m.emitted = map[string]int{}
+			}
+			m.emitted[string(cells[0].Row)] += len(cells)
+		}
 	}
 	done := 0
 	for done < nrows && remaining() {
